@@ -639,6 +639,20 @@ It next(It it)
     ++it;
     return it;
 }
+template<class It>
+It prev(It it, long n)
+{
+    for (; n > 0; --n) --it;
+    for (; n < 0; ++n) ++it;
+    return it;
+}
+template<class It>
+It next(It it, long n)
+{
+    for (; n > 0; --n) ++it;
+    for (; n < 0; ++n) --it;
+    return it;
+}
 template<class T>
 constexpr const T& min(const T& a, const T& b)
 {
@@ -917,6 +931,34 @@ public:
             i = m->m_pool[i].next;
             return *this;
         }
+        iterator operator++(int)
+        {
+            iterator t = *this;
+            ++*this;
+            return t;
+        }
+        iterator& operator--()
+        {
+            __vf_check(m != nullptr, VF_MMAP_DEREF_END);
+            if (i == __vf_npos)
+            {
+                __vf_check(m->m_last != __vf_npos, VF_MMAP_DEREF_END); // --end() of an empty container
+                i = m->m_last;
+            }
+            else
+            {
+                check_live();
+                __vf_check(m->m_pool[i].prev != __vf_npos, VF_MMAP_DEREF_END); // --begin()
+                i = m->m_pool[i].prev;
+            }
+            return *this;
+        }
+        iterator operator--(int)
+        {
+            iterator t = *this;
+            --*this;
+            return t;
+        }
         void check_live() const
         {
             __vf_check(m != nullptr, VF_MMAP_DEREF_END);
@@ -1052,6 +1094,48 @@ public:
             erase(iterator(this, m_first));
         }
     }
+    // C++17 node handles: extract() unlinks the element and hands it out with a mutable key; insert(node&&) files it again
+    // (after every equal key, like emplace).  The model moves key and mapped value instead of keeping the node's address,
+    // which the standard's "pointers and references stay valid" guarantee would need; iterators to the element are
+    // invalidated by extract() in the standard as well.
+    class node_type
+    {
+    public:
+        node_type() : m_has(false), m_k(), m_v() {}
+        node_type(K&& k, V&& v) : m_has(true), m_k(std::move(k)), m_v(std::move(v)) {}
+        node_type(node_type&& o) : m_has(o.m_has), m_k(std::move(o.m_k)), m_v(std::move(o.m_v)) { o.m_has = false; }
+        node_type& operator=(node_type&& o)
+        {
+            m_has   = o.m_has;
+            m_k     = std::move(o.m_k);
+            m_v     = std::move(o.m_v);
+            o.m_has = false;
+            return *this;
+        }
+        bool empty() const { return !m_has; }
+        explicit operator bool() const { return m_has; }
+        K& key() const
+        {
+            __vf_check(m_has, VF_MMAP_DEAD_ITER);
+            return const_cast<K&>(m_k);
+        }
+        V& mapped() const
+        {
+            __vf_check(m_has, VF_MMAP_DEAD_ITER);
+            return const_cast<V&>(m_v);
+        }
+        bool m_has;
+        K    m_k;
+        V    m_v;
+    };
+    node_type extract(iterator it)
+    {
+        it.check_live();
+        __vf_check(it.m == this, VF_MMAP_DEAD_ITER);
+        node_type nh(std::move(const_cast<K&>(m_pool[it.i].kv.first)), std::move(m_pool[it.i].kv.second));
+        erase(it);
+        return nh;
+    }
 
 private:
     size_t take_free()
@@ -1082,6 +1166,15 @@ public:
     iterator emplace(KK&& k, Args&&... args)
     {
         return this->do_emplace(std::forward<KK>(k), std::forward<Args>(args)...).first;
+    }
+    using node_type = typename __ordered_tab<K, V, true>::node_type;
+    iterator insert(node_type&& nh)
+    {
+        if (nh.empty())
+            return this->end();
+        iterator r = this->do_emplace(std::move(nh.m_k), std::move(nh.m_v)).first;
+        nh.m_has   = false;
+        return r;
     }
 };
 template<class K, class V>
